@@ -99,7 +99,7 @@ def run_driver(w, binary, driver, infile, outfile, timeout=3600, extra_env=None,
     tmpd = w.path("tmp")
     os.makedirs(tmpd, exist_ok=True)
     env = dict(os.environ, VERIF_DRIVER=driver, VERIF_IN=infile, VERIF_OUT=outfile, VERIF_SEED=str(w.seed), TMPDIR=tmpd,
-               DBUS_SESSION_BUS_ADDRESS="unix:path=/nonexistent-verif-dbus")  # keyring's init() would otherwise dbus-launch a daemon per process
+               DBUS_SESSION_BUS_ADDRESS="unix:path=/nonexistent-verif-dbus", VERIF_REPO_DIR=REPO)  # keyring's init() would otherwise dbus-launch a daemon per process
     if extra_env:
         env.update(extra_env)
     t = time.time()
